@@ -15,6 +15,8 @@
 -/
 import Pogreb.Model
 import Pogreb.Spec
+import Pogreb.BucketCodec
+import Pogreb.Lock
 open Pogreb
 
 abbrev SpecMap := AList Bytes Bytes
@@ -29,6 +31,26 @@ structure D where
   since    : List (Bytes × Option Bytes) := []   -- writes issued since the last sync point
   comp     : Option MState.CompState := none
   isOpen   : Bool := false
+  ambiguous : Bool := false    -- the last write was in flight when the process died
+  noLayout : Bool := false     -- the model does not know the index layout (golden directory)
+  lockSys : Pogreb.Lock.Sys := Pogreb.Lock.Sys.init
+  lockProcs : Nat := 0
+  lockSteps : Nat := 0
+  concChecks : Nat := 0
+  aliasChecks : Nat := 0
+  fsdiffChecks : Nat := 0
+  inScan : Bool := false
+  scanStart : SpecMap := AList.empty
+  scanWrites : List (Bytes × Option Bytes) := []
+  scanReturned : List (Bytes × Bytes) := []
+  scans : Nat := 0
+  scansWithWriters : Nat := 0
+  inBackup : Bool := false
+  backupSpecs : List SpecMap := []
+  backups : Nat := 0
+  goldenKind : String := ""
+  goldenSeed : Nat := 0
+  goldens : Nat := 0
   maxSeg   : Nat := 0
   -- counters
   fails    : Nat := 0
@@ -50,6 +72,9 @@ structure D where
   compactions : Nat := 0
   recoveries : Nat := 0
   holes : Nat := 0
+  allocChecks : Nat := 0
+  maxAllocRatio : Nat := 0
+  tailChecks : Nat := 0
 
 def hexVal (c : Char) : Option Nat :=
   if '0' ≤ c ∧ c ≤ '9' then some (c.toNat - '0'.toNat)
@@ -142,6 +167,11 @@ def checkState (d : D) (toks : List String) (what : String) : IO D := do
     | some e => fail d "SPEC" s!"{what}: {e}"
     | none =>
       let mut d := d
+      if d.ambiguous then
+        -- all-or-nothing of the write that was in flight: adopt whichever the recovery shows
+        if !sameItems o.items d.spec.items && sameItems o.items d.specPrev.items then
+          d := { d with spec := d.specPrev, since := d.since.drop 1 }
+        d := { d with ambiguous := false }
       if !sameItems o.items d.spec.items then
         d ← fail d "SPEC" s!"{what}: contents differ from the specification map (impl {o.items.length} keys, spec {d.spec.items.length})"
       let mi := d.st.items
@@ -181,16 +211,6 @@ def checkImage (d : D) (toks : List String) : IO D := do
         | some k => fail d "SPEC" s!"power-loss image at={at_}: key {hex k} holds a value that is neither its synced value nor one written since"
 
 /-! ### Index dump -/
-
-def rd (b : Bytes) (off len : Nat) : Nat := rdLE ((b.drop off).take len)
-
-def parseBucket (b : Bytes) : List Slot × Nat × Bool :=
-  let slots := (List.range 31).map fun i =>
-    let o := 16 * i
-    (⟨rd b o 4, rd b (o + 4) 2, rd b (o + 6) 2, rd b (o + 8) 4, rd b (o + 12) 4⟩ : Slot)
-  let used := slots.takeWhile (·.off != 0)
-  let rest := slots.drop used.length
-  (used, rd b 496 8, rest.all (·.off == 0))
 
 /-- Follow one chain; returns buckets, overflow offsets used, and an error. -/
 partial def parseChain (main ovf : Bytes) (i : Nat) : List Bucket × List Nat × Option String :=
@@ -262,7 +282,7 @@ def checkDump (d : D) (toks : List String) : IO D := do
   if keys.length != d.spec.count then
     d ← fail d "INV" s!"dump: index holds {keys.length} keys, specification {d.spec.count}"
   -- layout (informational)
-  let agree := decide (chains = d.st.idx.chains) && level == d.st.idx.level && split == d.st.idx.split
+  let agree := d.noLayout || (decide (chains = d.st.idx.chains) && level == d.st.idx.level && split == d.st.idx.split)
   if !agree then
     IO.println s!"INFO layout case={d.caseName} line={d.lineNo} real index layout differs from the model's"
   let mc := chains.foldl (fun m c => max m c.length) 0
@@ -282,7 +302,10 @@ def checkSegs (d : D) (toks : List String) : IO D := do
     return d
   for (r, m) in real.zip model do
     match r with
-    | [id, seq, size, flen, crc, full, cur] =>
+    | [id, seq, size, flen, crc, full, cur, dels] =>
+      -- MetaInv: the pick rule reads DeleteRecords; it must say whether delete records are present
+      if (dels > 0) != MState.hasDelete m then
+        d ← fail d "MODEL" s!"segs: segment {id} has DeleteRecords={dels} but {if MState.hasDelete m then "holds" else "holds no"} delete records"
       if size != flen then
         d ← fail d "SPEC" s!"segs: segment {id} in-memory size {size} differs from file length {flen}"
       if id != m.id || seq != m.seq then
@@ -333,7 +356,9 @@ def checkDir (d : D) (toks : List String) : IO D := do
 /-! ### Operations -/
 
 def noteWrite (d : D) (k : Bytes) (v : Option Bytes) : D :=
-  { d with since := (k, v) :: d.since }
+  let d := { d with since := (k, v) :: d.since }
+  let d := if d.inScan then { d with scanWrites := (k, v) :: d.scanWrites } else d
+  if d.inBackup then { d with backupSpecs := d.spec :: d.backupSpecs } else d
 
 def countRollover (before after : MState) (d : D) : D :=
   if after.segs.length > before.segs.length then { d with rollovers := d.rollovers + 1 } else d
@@ -407,9 +432,159 @@ def step (d : D) (line : String) : IO D := do
   | [] => pure d
   | "case" :: name :: _ =>
     pure { d with caseName := name, cases := d.cases + 1, spec := AList.empty, specPrev := AList.empty,
-                  syncSpec := AList.empty, since := [], comp := none, isOpen := false }
+                  syncSpec := AList.empty, since := [], comp := none, isOpen := false, noLayout := false, ambiguous := false }
   | "cfg" :: rest =>
-    pure { d with maxSeg := (fieldNat rest "maxseg").getD 0 }
+    let ms := (fieldNat rest "maxseg").getD 0
+    pure { d with maxSeg := ms, st := { (default : MState) with cfg := ⟨ms⟩ } }
+  | "tail" :: _ => pure d
+  | "concfail" :: rest => fail d "SPEC" (" ".intercalate rest)
+  | "concsum" :: rest => pure { d with concChecks := d.concChecks + (fieldNat rest "checks").getD 0 }
+  | "aliasfail" :: rest => fail d "SPEC" (" ".intercalate rest)
+  | "aliassum" :: rest => pure { d with aliasChecks := d.aliasChecks + (fieldNat rest "checks").getD 0 }
+  | "fsdifffail" :: rest => fail d "SPEC" (" ".intercalate rest)
+  | "fsdiffsum" :: rest => pure { d with fsdiffChecks := d.fsdiffChecks + (fieldNat rest "checks").getD 0 }
+  | "bigvalue" :: rest =>
+    -- C16 at the 512 MiB limit (values too large for the Lean driver to hold): lengths and outcomes only
+    let len := (fieldNat rest "len").getD 0
+    let res := (field rest "res").getD ""
+    let want := if len > maxValueLength then "valueTooLarge" else "ok"
+    if res != want then fail d "SPEC" s!"put of a {len}-byte value returned {res}, specification {want}"
+    else if res == "ok" && (field rest "roundtrip").getD "" != "1" then fail d "SPEC" s!"{len}-byte value does not round-trip"
+    else if res != "ok" && (field rest "unchanged").getD "" != "1" then fail d "SPEC" s!"rejected {len}-byte Put changed files or count"
+    else pure d
+  | "lockinit" :: rest => pure { d with lockSys := Pogreb.Lock.Sys.init, lockProcs := (fieldNat rest "procs").getD 0 }
+  | "lk" :: act :: ps :: "->" :: status :: rest =>
+    let p := ps.toNat?.getD 0
+    let a : Option Pogreb.Lock.Action := match act with
+      | "start" => some (.start p) | "sys" => some (.sys p) | "release" => some (.release p) | _ => none
+    match a with
+    | none => fail d "MODEL" s!"lk: unknown action {act}"
+    | some a =>
+      let sys := Pogreb.Lock.step true d.lockSys a
+      let want := match sys.pc p with
+        | .idle => "idle" | .statDone _ => "parked:lock.stat" | .opened _ _ => "parked:lock.open"
+        | .locked _ _ => "parked:lock.flock" | .holding e _ => if e then "holding:1" else "holding:0"
+        | .failed => "failed" | .unlinked _ => "parked:unlock.remove"
+      let mut d := { d with lockSys := sys, lockSteps := d.lockSteps + 1 }
+      match field rest "holders" with
+      | some "-" => pure ()
+      | some hs =>
+        let hn := hs.toNat?.getD 0
+        if hn > 1 then
+          d ← fail d "SPEC" s!"{hn} openers hold the lock of one directory at once"
+        let mh := ((List.range (d.lockProcs + 1)).filter fun q => Pogreb.Lock.isHolding sys q).length
+        if hn != mh then
+          d ← fail d "MODEL" s!"lock: {hn} holders, model {mh}"
+      | none => pure ()
+      match field rest "path" with
+      | some "1" => if !sys.path.isSome then d ← fail d "MODEL" "lock: path exists, model says it does not"
+      | some "0" => if sys.path.isSome then d ← fail d "MODEL" "lock: path missing, model says it exists"
+      | _ => pure ()
+      if status != want then
+        let cls := if status.startsWith "holding" || want.startsWith "holding" then "SPEC" else "MODEL"
+        d ← fail d cls s!"lock: process {p} after {act} is {status}, the protocol model says {want}"
+      pure d
+  | "scanbegin" :: _ =>
+    pure { d with inScan := true, scanStart := d.spec, scanWrites := [], scanReturned := [], scans := d.scans + 1 }
+  | "next" :: rest =>
+    match rest with
+    | [kh, vh] =>
+      match unhex kh, unhex vh with
+      | some k, some v =>
+        let truthful := d.scanStart.get k == some v || d.scanWrites.any (fun (k', v') => k' == k && v' == some v)
+        let d := { d with scanReturned := (k, v) :: d.scanReturned }
+        if !truthful then fail d "SPEC" s!"scan returned {hex k}={hex v}, a value that key never had during the scan"
+        else pure d
+      | _, _ => fail d "MODEL" "next: bad hex"
+    | _ => fail d "SPEC" s!"scan: Next failed: {rest}"
+  | "scanend" :: rest =>
+    let mut d := { d with inScan := false }
+    if d.scanWrites.length > 0 then d := { d with scansWithWriters := d.scansWithWriters + 1 }
+    if fieldNat rest "donesticky" != some 1 then
+      d ← fail d "SPEC" "scan: Next after ErrIterationDone returned something else"
+    for (k, v) in d.scanStart.items do
+      if !(d.scanWrites.any (·.1 == k)) then
+        let hits := d.scanReturned.filter (·.1 == k)
+        if hits.isEmpty then
+          d ← fail d "SPEC" s!"scan missed key {hex k}, present and unchanged during the whole scan"
+        else if hits.any (·.2 != v) then
+          d ← fail d "SPEC" s!"scan returned a wrong value for the unchanged key {hex k}"
+        else if d.scanWrites.isEmpty && hits.length != 1 then
+          d ← fail d "SPEC" s!"quiescent scan returned key {hex k} {hits.length} times"
+    if d.scanWrites.isEmpty && d.scanReturned.length != d.scanStart.count then
+      d ← fail d "SPEC" s!"quiescent scan returned {d.scanReturned.length} pairs for {d.scanStart.count} live keys"
+    pure d
+  | "bbegin" :: _ => pure { d with inBackup := true, backupSpecs := [d.spec], backups := d.backups + 1 }
+  | "bend" :: res :: _ =>
+    let d := { d with inBackup := false }
+    if res != "ok" then fail d "SPEC" s!"backup returned {res}" else pure d
+  | "bstate" :: rest =>
+    match parseObs rest with
+    | none => fail d "MODEL" "unparseable bstate"
+    | some o =>
+      match obsCoherent o with
+      | some e => fail d "SPEC" s!"backup directory: {e}"
+      | none =>
+        if d.backupSpecs.any (fun m => sameItems o.items m.items) then pure d
+        else fail d "SPEC" s!"backup holds {o.items.length} keys: not the contents at any instant between Backup's call and return"
+  | "failedopen" :: _ => pure d
+  | "gexpect" :: rest =>
+    match (field rest "items").bind parseItems with
+    | none => fail d "MODEL" "gexpect: bad items"
+    | some its =>
+      pure { d with spec := ⟨its⟩, specPrev := ⟨its⟩, goldenKind := (field rest "kind").getD "", goldenSeed := (fieldNat rest "seed").getD 0,
+                    noLayout := true, goldens := d.goldens + 1 }
+  | "gopen" :: rest =>
+    let res := (field rest "res").getD ""
+    if res != "ok" then fail d "SPEC" s!"golden directory ({d.goldenKind}) written by the pinned version does not open: {res}"
+    else
+      let seed := (fieldNat rest "seed").getD 0
+      if d.goldenKind == "clean" then
+        let d := { d with st := { d.st with seed := UInt32.ofNat seed }, isOpen := true }
+        if seed != d.goldenSeed then
+          fail d "SPEC" "cleanly closed golden directory was not opened as such (hash seed differs: recovery ran or metadata lost)"
+        else pure d
+      else
+        pure { d with st := d.st.reopenRecover (UInt32.ofNat seed), isOpen := true, noLayout := false, recoveries := d.recoveries + 1 }
+  | "gstate" :: rest =>
+    match parseObs rest with
+    | none => fail d "MODEL" "unparseable gstate"
+    | some o =>
+      match obsCoherent o with
+      | some e => fail d "SPEC" s!"golden directory: {e}"
+      | none =>
+        if !sameItems o.items d.spec.items then
+          fail d "SPEC" s!"golden directory opens with {o.items.length} keys / different values, expected {d.spec.items.length}"
+        else pure d
+  | "gput" :: res :: _ => if res != "ok" then fail d "SPEC" s!"put into golden directory: {res}" else pure d
+  | "gclose" :: res :: _ => if res != "ok" then fail d "SPEC" s!"close of golden directory: {res}" else pure { d with isOpen := false }
+  | "gopen2" :: rest =>
+    if (field rest "res").getD "" != "ok" then fail d "SPEC" "golden directory does not reopen after a write"
+    else if fieldNat rest "count" != some (d.spec.count + 1) || (field rest "after").getD "" != "31" then
+      fail d "SPEC" "golden directory: contents wrong after write, close, reopen"
+    else pure d
+  | "goldenerr" :: _ => fail d "MODEL" "golden corpus unreadable"
+  | "alloc" :: rest =>
+    -- C19: memory requested by the recovering Open is bounded by the bytes on disk
+    let bytes := (fieldNat rest "bytes").getD 0
+    let fb := (fieldNat rest "filebytes").getD 0
+    let d := { d with allocChecks := d.allocChecks + 1, maxAllocRatio := max d.maxAllocRatio (bytes / (fb + 1)) }
+    if bytes > 16 * fb + 16 * 1024 * 1024 then
+      fail d "SPEC" s!"recovery allocated {bytes} bytes for {fb} bytes on disk"
+    else pure d
+  | "rstate" :: rest =>
+    -- recovered state of a damaged image: the oracle is the model's validating reader
+    match parseObs rest with
+    | none => fail d "MODEL" "unparseable rstate"
+    | some o =>
+      match obsCoherent o with
+      | some e => fail d "SPEC" s!"recovered state: {e}"
+      | none =>
+        let mi := d.st.items
+        let d := { d with spec := ⟨mi⟩, specPrev := ⟨mi⟩, syncSpec := ⟨mi⟩, since := [], ambiguous := false, tailChecks := d.tailChecks + 1 }
+        if !sameItems o.items mi then
+          fail d "SPEC" s!"recovery replayed {o.items.length} keys, the validating reader of the documented format accepts {mi.length}"
+        else pure d
   | "open" :: rest =>
     let kind := (field rest "kind").getD ""
     let res := (field rest "res").getD ""
@@ -422,7 +597,7 @@ def step (d : D) (line : String) : IO D := do
         | "clean" => { d.st.reopenClean with seed := seed }
         | _ => d.st.reopenRecover seed
       let d := if kind == "recover" then { d with recoveries := d.recoveries + 1 } else d
-      let mut d := { d with st := st, isOpen := true, specPrev := d.spec }
+      let mut d := { d with st := st, isOpen := true, specPrev := if d.ambiguous then d.specPrev else d.spec }
       if kind == "clean" && seed != d.st.seed then
         d ← fail d "MODEL" "open: hash seed changed across a clean restart"
       pure d
@@ -446,7 +621,21 @@ def step (d : D) (line : String) : IO D := do
   | "close" :: res :: _ =>
     let d := { d with isOpen := false, specPrev := d.spec }
     if res != "ok" then fail d "SPEC" s!"close returned {res}" else pure d
-  | "kill" :: _ => pure { d with isOpen := false, comp := none }
+  | "kill" :: rest => pure { d with isOpen := false, comp := none, ambiguous := rest.contains "torn" }
+  | "adopt" :: files =>
+    -- continue from a crash image: the model takes over the segment files as they are
+    let segs := files.filterMap fun t =>
+      match t.splitOn ":" with
+      | [name, hx] =>
+        match name.splitOn "-", unhex hx with
+        | [a, b], some data =>
+          match a.toNat?, b.toNat? with
+          | some id, some seq => some (⟨id, seq, data, false⟩ : MSeg)
+          | _, _ => none
+        | _, _ => none
+      | _ => none
+    let sorted := segs.foldl (fun acc s => MState.insertSeg acc s) []
+    pure { d with st := { d.st with segs := sorted, cur := none } }
   | "cbegin" :: rest =>
     let picked : List Nat := match field rest "pick" with
       | some "-" => []
@@ -491,5 +680,5 @@ partial def loop (h : IO.FS.Stream) (d : D) : IO D := do
 
 def main : IO UInt32 := do
   let d ← loop (← IO.getStdin) {}
-  IO.println s!"SUMMARY cases={d.cases} lines={d.lines} fails={d.fails} spec_fails={d.specFails} inv_fails={d.invFails} model_fails={d.modelFails} images={d.images} inflight_after={d.imagesInflightAfter} inflight_before={d.imagesInflightBefore} dumps={d.dumps} layout_agree={d.layoutAgree}/{d.layoutTotal} seg_checks={d.segChecks} max_chain={d.maxChain} max_buckets={d.maxBuckets} rollovers={d.rollovers} compactions={d.compactions} recoveries={d.recoveries} holes={d.holes}"
+  IO.println s!"SUMMARY cases={d.cases} lines={d.lines} fails={d.fails} spec_fails={d.specFails} inv_fails={d.invFails} model_fails={d.modelFails} images={d.images} inflight_after={d.imagesInflightAfter} inflight_before={d.imagesInflightBefore} dumps={d.dumps} layout_agree={d.layoutAgree}/{d.layoutTotal} seg_checks={d.segChecks} max_chain={d.maxChain} max_buckets={d.maxBuckets} rollovers={d.rollovers} compactions={d.compactions} recoveries={d.recoveries} holes={d.holes} alloc_checks={d.allocChecks} max_alloc_ratio={d.maxAllocRatio} tail_checks={d.tailChecks} goldens={d.goldens} scans={d.scans} scans_with_writers={d.scansWithWriters} backups={d.backups} lock_steps={d.lockSteps} conc_checks={d.concChecks} alias_checks={d.aliasChecks} fsdiff_checks={d.fsdiffChecks}"
   return (if d.fails == 0 then 0 else 1)
